@@ -1323,7 +1323,7 @@ class Standard(Output):
                 if lmissing is not None:
                     lines.append(lmissing)
                     names.append("missing")
-                mpl.figlegend(lines, names, "lower center", ncol=4)
+                mpl.figlegend(lines, names, loc="lower center", ncol=4)
             elif data.num_inputs == 2:
                 lines = [lmax, lsimilar, lmin]
                 names = [labels[0] + " is higher", "similar", labels[1] + " is higher"]
